@@ -25,7 +25,7 @@ func init() {
 			Old: "\tif threshold <= 0 {\n\t\tthreshold = cluster.Threshold(len(nodes))\n",
 			New: "\tif safe := cluster.Threshold(len(nodes)); threshold < safe {\n\t\tthreshold = safe\n"},
 		Mutant{ID: "TP-C11-frost-plus-one", File: "dkg/frost.go", Expect: "TP",
-			Old: "\t\t\tuint32(threshold),", New: "\t\t\tuint32(threshold+1),"})
+			Old: "\t\t\tshareIdx,\n\t\t\tthreshold,\n\t\t\tdgkCtx,", New: "\t\t\tshareIdx,\n\t\t\tthreshold+1,\n\t\t\tdgkCtx,"})
 	Extend("C12", "(TP) the threshold given to tbls.ThresholdSplit when creating a cluster is the configured threshold by provenance.",
 		func(c *rt.Ctx) { thresholdProv(c, "C12") },
 		Mutant{ID: "TP-C12-split-clamp", File: "cmd/createcluster.go", Expect: "TP",
